@@ -25,6 +25,7 @@ let stream_child kind : z list -> z list =
   match kind with
   | "drop2" -> (fun inp -> join_nl (List.filteri (fun i _ -> i <> 1) (split_lines inp)))
   | "extra" -> (fun inp -> join_nl (split_lines inp) @ [z_of_int 88; z_of_int 10])
+  | "number" -> (fun inp -> join_nl (List.mapi (fun i l -> (List.map (fun ch -> z_of_int (Char.code ch)) (List.init (String.length (string_of_int (i + 1))) (String.get (string_of_int (i + 1))))) @ [z_of_int 58] @ l) (split_lines inp)))
   | k -> line_child (child k)
 
 let rec pairs l = match l with a :: b :: r -> let (p, d) = pairs r in (unh a :: p, unh b :: d) | _ -> ([], [])
